@@ -748,7 +748,8 @@ def _patch_special():
                                          to_object_array(y.asarray() if hasattr(y, 'asarray') else y))
             out = np.empty(xa.shape, dtype=object)
             for idx in np.ndindex(xa.shape):
-                u, v = tolift(xa[idx]), tolift(ya[idx])
+                u = xa[idx] if is_symscalar(xa[idx]) else tolift(xa[idx])
+                v = ya[idx] if is_symscalar(ya[idx]) else tolift(ya[idx])
                 out[idx] = tolift(0.0) if not bool(u != 0) else u * v.log()
             return wrap(out, np.dtype('float64')) if out.ndim else out[()]
         return _orig_special['xlogy'](x, y, *a, **k)
